@@ -79,6 +79,11 @@ var literalCases = map[string]struct {
 		c: Case{Program: "where j==false", Meta: prog.Meta{Ordered: true, Deterministic: true}, Source: "grammar",
 			Input: gen.SeqFromZSON(`{j:null(bool),a:1} {j:true,a:1}`), Reader: "zng", Frame: 1, Threads: 1, Batch: 100},
 	},
+	"known-C07-sortkey-summarize-fork-combine": {
+		sig: "C07/sortkey-summarize/input-order-assumed-through-fork-combine", expect: "known",
+		c: Case{Program: "fork (=> pass => pass) | count() by n", Meta: prog.Meta{Ordered: false, Deterministic: true}, Source: "grammar",
+			Input: gen.SeqFromZSON(`{n:1} {n:2} {n:3} {n:4} {n:5} {n:6}`), SortKey: "n", Reader: "plain", Frame: 1, Threads: 1, Batch: 1},
+	},
 	"known-C07-sortkey-join-desc-nulls": {
 		sig: "C07/sortkey-join/desc-null-keys", expect: "known",
 		c: Case{Program: "fork (=> pass => put a:=a) | join on a=a b2:=b", Meta: prog.Meta{Ordered: false, Deterministic: true}, Source: "grammar",
@@ -103,6 +108,9 @@ func TestWriteKnownReplays(t *testing.T) {
 			t.Errorf("%s does not reproduce %s", name, lc.sig)
 		}
 		if os.Getenv("VERIF_WRITE_REPLAYS") == "" {
+			continue
+		}
+		if only := os.Getenv("VERIF_WRITE_ONLY"); only != "" && only != name {
 			continue
 		}
 		raw, _ := json.Marshal(lc.c)
